@@ -29,6 +29,7 @@ class Obligation:
     where: str = ""  # file:line at the time of the run (diagnostic only)
     facts: dict = field(default_factory=dict)
     nontrivial: bool = True
+    src: tuple = ()  # (rule-module file, line) of the check.* call that recorded it
 
     def as_sample(self) -> dict:
         d = {"rule": self.rule, "construct": self.construct, "verdict": self.verdict}
@@ -82,15 +83,30 @@ class Check:
     def holds(self, rule: str, construct: str, detail: str = "", where: str = "", nontrivial=True, **facts):
         self.obligations.append(Obligation(rule, construct, "holds", detail, where, facts, nontrivial))
 
-    def violated(self, rule: str, construct: str, detail: str = "", where: str = "", **facts):
-        self.obligations.append(Obligation(rule, construct, "violated", detail, where, facts))
+    @staticmethod
+    def _caller(depth: int = 2) -> tuple:
+        """Recording call stack restricted to rule/domain modules, innermost first: ((file, line), …)."""
+        out = []
+        try:
+            f = sys._getframe(depth)
+            while f is not None:
+                fn = f.f_code.co_filename.replace(os.sep, "/")
+                if "/qv/rules/" in fn or "/qv/domains/" in fn:
+                    out.append((f.f_code.co_filename, f.f_lineno))
+                f = f.f_back
+        except Exception:
+            pass
+        return tuple(out)
+
+    def violated(self, rule: str, construct: str, detail: str = "", where: str = "", _src: tuple = (), **facts):
+        self.obligations.append(Obligation(rule, construct, "violated", detail, where, facts, True, _src or self._caller()))
 
     def decide(self, ok: bool, rule: str, construct: str, detail: str = "", where: str = "",
                fail_detail: Optional[str] = None, **facts) -> bool:
         if ok:
             self.holds(rule, construct, detail, where, **facts)
         else:
-            self.violated(rule, construct, fail_detail or detail, where, **facts)
+            self.violated(rule, construct, fail_detail or detail, where, _src=self._caller(), **facts)
         return ok
 
     def advisory(self, rule: str, construct: str, detail: str = "", where: str = "", **facts):
